@@ -1,7 +1,10 @@
 """C09 — templates substitute options and parameters transitively and report their reads."""
 from __future__ import annotations
 
+import copy
+
 from hypothesis import strategies as st
+from labrea import Template
 
 from .. import specgen, universe as U
 from ..build import build, run
@@ -15,7 +18,9 @@ RULE = ("a Template (text from the grammar literal | {KEY} | {DOTTED.KEY} | {:pa
         "values are scalars, templated strings chained to reference depth 3, or lists/sections holding templated strings. "
         "evaluate is compared with an independent textual substitution that records every option key it reads: equal "
         "text (typed), or a missing-key failure naming a key the substitution found absent; keys(o) must contain every "
-        "read key that is present and explain(o) every read key. Non-trivial = the substitution read >=2 distinct keys of "
+        "read key that is present and explain(o) every read key; one long-lived Template object used on two dictionaries "
+        "in turn, and re-entered from the computation of its own last parameter under the other dictionary, gives each "
+        "evaluation the text of its own dictionary. Non-trivial = the substitution read >=2 distinct keys of "
         "which at least one through another templated value (reference depth >=2) or through a container; distinct = "
         "distinct (node, dictionary) hash.")
 ASSUMPTIONS = [
@@ -83,6 +88,46 @@ def check(case, ctx):
             raise Violation("explain-miss-read", f"{where}: substitution read {sorted(need_e)} but explain() = {sorted(E)}")
     elif r.ok:
         raise Violation("explain-fail", f"{where}: evaluates but explain() failed {ex!r}")
+    if case["node"]["k"] == "tmpl" and "options2" in case:
+        # one long-lived Template object: used for several dictionaries in turn, and re-entered (its last parameter's
+        # computation evaluates the same object under another dictionary) - every evaluation sees its own options only
+        o2 = case["options2"]
+        r2 = Ref(spec).run(o2)
+        if "scalar-section-walk" not in r2.labels:
+            def same(out, rr):
+                return (out.ok and rr.ok and out.value == rr.value) or (not out.ok and not rr.ok and out.fail in rr.fails)
+            T = build(spec).root
+            for oo, rr in ((o2, r2), (o, r), (o2, r2)):
+                out = run(T.evaluate, copy.deepcopy(oo))
+                if not same(out, rr):
+                    raise Violation("depends-on-earlier-evaluation", f"{case['node']}: one Template object evaluated on {o2}, {o}, {o2} in turn: on {oo} "
+                                                                     f"gives {out!r} but a fresh one {rr!r}")
+            labels.add("same-object-reused")
+            names = list(case["node"]["params"])
+            if names:
+                b3 = build(spec)
+                params = {nm: b3.node(case["node"]["params"][nm]) for nm in names}
+                inner, busy = [], []
+
+                def hook(x):
+                    if not busy:
+                        busy.append(1)
+                        try:
+                            inner.append(run(T2.evaluate, copy.deepcopy(o2)))
+                        finally:
+                            busy.pop()
+                    return x
+                params[names[-1]] = params[names[-1]].apply(hook)
+                T2 = Template(case["node"]["s"], **params)
+                outer = run(T2.evaluate, copy.deepcopy(o))
+                if not same(outer, r):
+                    raise Violation("re-entrant-evaluation", f"{case['node']} on {o}, while its parameter {names[-1]} was being computed the same object was "
+                                                             f"evaluated on {o2}: the outer evaluation gives {outer!r}, expected {r!r}")
+                for out in inner:
+                    if not same(out, r2):
+                        raise Violation("re-entrant-evaluation", f"{case['node']} evaluated on {o2} from inside its own evaluation on {o}: {out!r}, expected {r2!r}")
+                if inner and len(names) >= 2 and r.ok and r2.ok and r.value != r2.value:
+                    labels.add("re-entered-with-other-options")
     deep = max([depth_of(o, k) for k in reads] + [0])
     container = any(isinstance(U.dotted_get(o, k), (list, dict)) and any(find_refs(s) for s in _strings(U.dotted_get(o, k))) for k in reads)
     if deep >= 1:
@@ -123,6 +168,8 @@ def cases(draw):
         # parameters read the caller's options directly (Options, possibly defaulted or chained), so
         # that "keys the substitution reads" is about the caller's dictionary
         s = g.tmpl_text(params=True)
+        if draw(st.integers(0, 2)) == 0:
+            s += "".join(piece for piece in ("{:p0:}", "/{:p1:}") if piece.strip("/") not in s)
         text_refs = [r for r in find_refs(s) if not r.startswith(":") and r in U.REF_ORDER]
 
         def param():
@@ -148,7 +195,14 @@ def cases(draw):
         node = {"k": "opt", "key": draw(st.sampled_from(U.FLAT)), "default": {"t": draw(st.sampled_from(["tmpl", "const"])), "s": g.tmpl_text(False)}}
         if node["default"]["t"] == "const":
             node["default"] = {"t": "const", "v": node["default"]["s"]}
-    return {"node": node, "defs": g.defs, "options": o}
+    case = {"node": node, "defs": g.defs, "options": o}
+    if kind == "tmpl":
+        pkeys = [p["key"] if p["k"] == "opt" else p["body"]["key"] for p in node["params"].values()]
+        o2 = o
+        for _ in range(draw(st.integers(1, 2))):
+            o2, _e = draw(U.edit_dict(o2, allow_unmentioned=False, focus=pkeys + [r for r in find_refs(s) if not r.startswith(":")]))
+        case["options2"] = o2
+    return case
 
 
 PARTS = [
